@@ -121,7 +121,7 @@ def run(chk):
     # (one variable read at several places and in several statements; payments split in steps)
     alias_profile = {"mon_var": 0.85, "var_reuse": 0.9, "acct_var": 0.6, "num_var": 0.5, "send": 0.8, "sendall": 0.1,
                      "save": 0.05, "depth": 2, "ddepth": 1, "stmts_max": 4, "small_values": True, "exact_balance": 0.5,
-                     "infix": 0.03, "big": 0.0}
+                     "infix": 0.03, "big": 0.25}
     cases_a, gens_a = P.make_cases(pid, seed + 104729, max(300, n // 2), start=5_000_000, profile_override=alias_profile)
     gos_a = runner.run_go(cases_a)
     models_a = P.run_model(cases_a, gos_a)
